@@ -15,7 +15,7 @@ def textFunB (ls : List ALine) : Bool :=
 def nologFunB (ls : List ALine) : Bool :=
   ls.all fun x => ls.all fun y => x.nolog != y.nolog || x.act == y.act
 
-/-- Hypotheses of `ios_acl_object_converges` for the incremental branch of one ACL pair: valid
+/-- Hypotheses of `ios_acl_object_converges_partial` for the incremental branch of one ACL pair: valid
 script that keeps a line, insert runs shorter than 10000, lines pairwise different modulo `log` on
 each side, NO REMARK LINES (the complement of finding F-C02r). -/
 def incrOK (al bl : List ALine) (rs : List Range) : Bool :=
@@ -49,19 +49,36 @@ def pairOK (al bl : List ALine) (rs : List Range) : Bool := incrOK al bl rs || r
 /-- Directions are `in` or `out`. -/
 def isDir (dir : String) : Bool := dir == "in" || dir == "out"
 
-/-- The static hypotheses of the end-to-end theorem `ios_F2_converges` as one decidable check:
+/-- The static hypotheses of the end-to-end theorem `ios_F2_converges_partial` as one decidable check:
 names of access lists and interfaces pairwise different, at most one `in` and one `out` binding per
 interface, every binding refers to a defined access list, every pair of a device ACL and a target
-ACL passes `pairOK`, every target ACL can be transferred, route lines pairwise different per side,
+ACL bound in the same direction to interfaces of the same name passes `pairOK`, every target ACL can be transferred, route lines pairwise different per side,
 equal route lines lie in the same VRF. -/
 def wfB (a0 b : Config) (sc : Scripts) : Bool :=
   decide ((a0.acls.map (·.1)).Nodup) && decide ((a0.intfs.map (·.name)).Nodup) && decide ((b.intfs.map (·.name)).Nodup) &&
   (a0.intfs.all fun i => decide ((i.binds.map (·.dir)).Nodup) && i.binds.all fun bd => isDir bd.dir && a0.hasAcl bd.acl) &&
   (b.intfs.all fun i => decide ((i.binds.map (·.dir)).Nodup) && i.binds.all fun bd => isDir bd.dir && b.hasAcl bd.acl) &&
-  ((a0.acls.map (·.1)).all fun aN => (b.acls.map (·.1)).all fun bN =>
-    pairOK (a0.lines aN) (b.lines bN) (lookupD sc.acl (aN, bN))) &&
+  (a0.intfs.all fun ai => b.intfs.all fun bi => ai.name != bi.name ||
+    ai.binds.all fun ba => bi.binds.all fun bb => ba.dir != bb.dir ||
+      pairOK (a0.lines ba.acl) (b.lines bb.acl) (lookupD sc.acl (ba.acl, bb.acl))) &&
   ((b.acls.map (·.1)).all fun bN => appendOKFrom [] (b.lines bN)) &&
   decide ((a0.routes.map (·.text)).Nodup) && decide ((b.routes.map (·.text)).Nodup) &&
   (a0.routes.all fun r => b.routes.all fun r' => r.text != r'.text || r.vrf == r'.vrf)
+
+
+/-- Which conjunct of `wfB` fails first (for the measured distribution). -/
+def wfWhy (a0 b : Config) (sc : Scripts) : String :=
+  if !(decide ((a0.acls.map (·.1)).Nodup) && decide ((a0.intfs.map (·.name)).Nodup) && decide ((b.intfs.map (·.name)).Nodup)) then "names"
+  else if !(a0.intfs.all fun i => decide ((i.binds.map (·.dir)).Nodup) && i.binds.all fun bd => isDir bd.dir && a0.hasAcl bd.acl) then "device-binding-of-undefined-acl"
+  else if !(b.intfs.all fun i => decide ((i.binds.map (·.dir)).Nodup) && i.binds.all fun bd => isDir bd.dir && b.hasAcl bd.acl) then "target-binding-of-undefined-acl"
+  else if !(a0.intfs.all fun ai => b.intfs.all fun bi => ai.name != bi.name ||
+      ai.binds.all fun ba => bi.binds.all fun bb => ba.dir != bb.dir ||
+        pairOK (a0.lines ba.acl) (b.lines bb.acl) (lookupD sc.acl (ba.acl, bb.acl))) then
+    (if (a0.acls.any fun x => x.2.any fun l => l.act == .remark) || (b.acls.any fun x => x.2.any fun l => l.act == .remark)
+     then "acl-pair-with-remark-lines" else "acl-pair")
+  else if !((b.acls.map (·.1)).all fun bN => appendOKFrom [] (b.lines bN)) then "target-acl-not-appendable"
+  else if !(decide ((a0.routes.map (·.text)).Nodup) && decide ((b.routes.map (·.text)).Nodup)) then "duplicate-route"
+  else if !(a0.routes.all fun r => b.routes.all fun r' => r.text != r'.text || r.vrf == r'.vrf) then "route-vrf"
+  else "ok"
 
 end NA.F2
